@@ -1,0 +1,6 @@
+//go:build verif
+
+package rng
+
+// VerifInt64ToSeed exposes int64ToSeed (used with the empty seed) to the verification harness.
+func VerifInt64ToSeed(value int64) string { return int64ToSeed(value) }
